@@ -77,7 +77,7 @@ def _at_for(c, want_s):
 
 def gen_output(rng, kind, at_us):
     o = {'kind': kind, 'at_us': at_us,
-         'timeout': rng.choice([0, 1, 2, 10, 3600, 86400]),
+         'timeout': rng.choice([0, 1, 2, 10, 3600, 86400, 86400, 10 ** 9]),
          'preimage': rng.bytes(rng.choice([1, 2, 16, 20, 32, 33, 64])).hex(),
          'use_digest': rng.chance(1, 3),
          'allowed': rng.choice(['00', '00', '01', '03', 'ff', '06', '80', 'a0']),
@@ -85,7 +85,7 @@ def gen_output(rng, kind, at_us):
          'keys': rng.choice(['bytes', 'bytes', 'object']),
          'sigfields': {}}
     for k in rng.sample(range(1, 9), rng.rng(1, 3)):
-        o['sigfields']['sigfield%d' % k] = rng.bytes(rng.choice([1, 8, 32, 100])).hex()
+        o['sigfields']['sigfield%d' % k] = rng.bytes(rng.choice([1, 8, 32, 100, 255, 256, 300])).hex()
     if kind == 'ptlc_tweak':
         t = bytearray(rng.bytes(32))
         t[31] &= 0x7f
